@@ -17,7 +17,7 @@
 From Coq Require Import List ZArith Bool.
 From ApiFu Require Import Base.Sexp Cost.CostModel Cost.CostSpec Cost.CostProofs.
 From ApiFu Require Val.Values Val.CoerceModel Val.CoerceSpec Val.CoerceProofs Relay.RelayModel.
-From ApiFu Require Import Cost.CostArgs Cost.CostArgsProofs Cost.CostFragments Cost.CostRelay.
+From ApiFu Require Import Cost.CostArgs Cost.CostArgsProofs Cost.CostFragments Cost.CostRelay Cost.CostTrace Cost.CostTraceProofs.
 Import ListNotations.
 Open Scope Z_scope.
 
@@ -350,6 +350,52 @@ Theorem C14_connection_edge_count_accepts : forall first last n,
                              RelayModel.a_after := None; RelayModel.a_before := None |} = None.
 Proof. exact connection_edge_count_accepts. Qed.
 
+
+(** * Round 4 *)
+
+(** ** every call made during the walk (Cost/CostTrace.v).  [validate_cost_trace] is the rule on a
+    request returning, besides the outcome, the list of calls [def.Cost(FieldCostContext{ctx, args})]
+    the walk made, in order ([call] = field selection, cost context, argument map).  The check
+    compares this list with the calls the real cost functions received, case by case. *)
+
+(** the traced rule is the rule: its outcome is [validate_cost_request]'s (to which all theorems
+    above apply) *)
+Theorem C14_trace_is_the_walk : forall (C : Type) E dt skip_zero fuel dc ctx0 ops frs opname raw max,
+  fst (validate_cost_trace C E dt skip_zero fuel dc ctx0 ops frs opname raw max)
+  = validate_cost_request C E dt skip_zero fuel dc ctx0 ops frs opname raw max.
+Proof. exact trace_outcome. Qed.
+
+(** every call, for every document (valid or not), every variables, every cost functions: it is the
+    call of a field selection of the chosen operation or of a fragment of the document, on exactly
+    the map C05's CoerceArgumentValues returned for that selection under the coerced variables of
+    the chosen operation (and the cost function answered) *)
+Theorem C14_every_cost_call_is_coerced : forall (C : Type) E dt skip_zero fuel dc ctx0 ops frs opname raw max c,
+  In c (snd (validate_cost_trace C E dt skip_zero fuel dc ctx0 ops frs opname raw max)) ->
+  exists o vv,
+    chosen_op C ops opname = Some o /\
+    CoerceModel.coerce_variable_values CoerceModel.all_fixed E dt (ao_vardefs o) raw = Values.Ok vv /\
+    (field_in C (ao_body o) (c_field c) \/ exists p, In p frs /\ field_in C (snd p) (c_field c)) /\
+    CoerceModel.coerce_argument_values CoerceModel.all_fixed E dt (af_argdefs (c_field c)) (af_args (c_field c)) vv
+    = Values.Ok (c_args c) /\
+    exists g, af_cost (c_field c) = Some g /\ g (c_ctx c) (c_args c) <> None.
+Proof. exact trace_calls_are_coerced. Qed.
+
+(** jointly with C05: if the field selections of the document passed the variable-usage rule
+    ([field_usage_ok], C05's [usage_ok]) over a schema whose defaults are values of their types,
+    every argument map any cost function is called with during the walk conforms to the declared
+    argument types *)
+Theorem C14_every_cost_call_conforms : forall (C : Type) E dt skip_zero fuel dc ctx0 ops frs opname raw max o,
+  chosen_op C ops opname = Some o ->
+  CoerceSpec.env_ok E = true ->
+  CoerceModel.has_dup (map Values.vd_name (ao_vardefs o)) = false -> CoerceProofs.request_ok (ao_vardefs o) raw ->
+  (forall f, field_in C (ao_body o) f \/ (exists p, In p frs /\ field_in C (snd p) f) ->
+             CoerceModel.has_dup (map fst (af_argdefs f)) = false /\
+             (forall ad, In ad (af_argdefs f) -> CoerceSpec.default_ok E (snd ad) = true) /\
+             field_usage_ok C E (ao_vardefs o) f = true) ->
+  forall c, In c (snd (validate_cost_trace C E dt skip_zero fuel dc ctx0 ops frs opname raw max)) ->
+            CoerceSpec.args_conform_b E (af_argdefs (c_field c)) (c_args c) = true.
+Proof. exact trace_calls_conform. Qed.
+
 Print Assumptions C14_checked_mul_spec.
 Print Assumptions C14_checked_add_spec.
 Print Assumptions C14_select_op_spec.
@@ -381,3 +427,6 @@ Print Assumptions C14_expand_complete.
 Print Assumptions C14_served_page_within_count.
 Print Assumptions C14_connection_edges_le_multiplier_relay.
 Print Assumptions C14_connection_edge_count_accepts.
+Print Assumptions C14_trace_is_the_walk.
+Print Assumptions C14_every_cost_call_is_coerced.
+Print Assumptions C14_every_cost_call_conforms.
